@@ -95,7 +95,7 @@ def random_case(rng, tier):
         # does): wherever it sends the process, only edges of the graph may be taken
         opts['divert'] = {'site': 'hook:' + rng.choice(DIVERT_HOOKS), 'count': rng.choice([0, 0, 1, 2]),
                           'to': rng.choice(['finished', 'killed', 'excepted', 'waiting', 'running', 'created'])}
-    return {'program': program, 'schedule': schedule, 'opts': opts}
+    return {'program': program, 'schedule': schedule, 'opts': common.with_communicator(rng, opts)}
 
 
 def shrink(case):
